@@ -193,7 +193,9 @@ func (s *shortSim) rpcQuery(q query) {
 	if d := compare(want, res.Got, e.all(), q.F, from, to); d != nil {
 		// direct queries of the same filter ran just before: a discrepancy here that they
 		// did not show is the RPC layer's
-		cls := e.classify(d, res, pg, false)
+		// (a single-page answer that differs is an index/adapter matter, a multi-page one a
+		// paging matter of the handler's chunk size / scan limit)
+		cls := e.classify(d, res, pg, len(res.Pages) > 1)
 		e.report("rpc:"+cls, q, pg, res, want, d, "starknet_getEvents")
 	}
 }
